@@ -416,6 +416,12 @@ func unknownNumber(t *rapid.T, md protoreflect.MessageDescriptor) protowire.Numb
 	}
 }
 
+// UnknownRecordNum appends one record (any wire type, possibly a group) with
+// the given field number.
+func (c *StreamCfg) UnknownRecordNum(t *rapid.T, b []byte, num protowire.Number) []byte {
+	return c.unknownRecordNum(t, b, num, 0)
+}
+
 // UnknownRecord appends one unknown record for md.
 func (c *StreamCfg) UnknownRecord(t *rapid.T, b []byte, md protoreflect.MessageDescriptor) []byte {
 	return c.unknownRecord(t, b, md, 0)
